@@ -65,7 +65,7 @@ FUNCS = [
 D_MAX, STEPS_MAX = 8, 30
 
 META = {
-    "level": "proof",
+    "level": "other",
     "exhaustive": True,
     "explanation":
         "Reversibility: the real LeapfrogIntegrator.__call__ is run twice on fully symbolic (q, p, ε, M⁻¹) with the target "
@@ -140,7 +140,7 @@ META = {
 }
 
 MANIFEST = {
-    "category": "proof",
+    "category": "other",
     "text": "The real LeapfrogIntegrator.__call__ and HMCOperator._step are executed on symbolic tensors with the target and "
             "autograd replaced by an uninterpreted gradient oracle. Reversibility Φ(Φ(q,p)|p↦−p)=(q,−p) is an exact normal-form "
             "identity for every d=1..8, steps=1..30, diagonal and dense mass matrix (the property's bound), and for every step "
